@@ -83,11 +83,14 @@ where
         key_bundle: LongTermKeyBundle,
     ) -> Result<KeyRegistryState<ID>, KeyRegistryError> {
         key_bundle.verify()?;
-        let existing = y.identities.insert(id, *key_bundle.identity_key());
-        if let Some(existing) = existing {
-            // Sanity check.
-            assert_eq!(&existing, key_bundle.identity_key());
+        // The identity key of a member can never change. Key bundles come from the network, so
+        // this is an error of the sender, not a bug of ours.
+        if let Some(existing) = y.identities.get(&id)
+            && existing != key_bundle.identity_key()
+        {
+            return Err(KeyRegistryError::IdentityKeyMismatch);
         }
+        y.identities.insert(id, *key_bundle.identity_key());
         y.longterm_bundles
             .entry(id)
             .and_modify(|bundles| {
@@ -135,11 +138,14 @@ where
         key_bundle: OneTimeKeyBundle,
     ) -> Result<KeyRegistryState<ID>, KeyRegistryError> {
         key_bundle.verify()?;
-        let existing = y.identities.insert(id, *key_bundle.identity_key());
-        if let Some(existing) = existing {
-            // Sanity check.
-            assert_eq!(&existing, key_bundle.identity_key());
+        // The identity key of a member can never change. Key bundles come from the network, so
+        // this is an error of the sender, not a bug of ours.
+        if let Some(existing) = y.identities.get(&id)
+            && existing != key_bundle.identity_key()
+        {
+            return Err(KeyRegistryError::IdentityKeyMismatch);
         }
+        y.identities.insert(id, *key_bundle.identity_key());
         y.onetime_bundles
             .entry(id)
             .and_modify(|bundles| bundles.push(key_bundle.clone()))
@@ -217,6 +223,9 @@ pub enum KeyRegistryError {
 
     #[error("all available key bundles of this member expired")]
     KeyBundlesExpired,
+
+    #[error("identity key in key bundle does not match the one already known for this member")]
+    IdentityKeyMismatch,
 }
 
 #[cfg(test)]
